@@ -18,27 +18,65 @@ pub fn run_batch<L: Send + Default>(
 ) -> Vec<L> {
     let next = AtomicU64::new(0);
     let stop = AtomicBool::new(false);
+    let done = AtomicBool::new(false);
     let locals: Mutex<Vec<L>> = Mutex::new(vec![]);
+    // Watchdog: a run that does not come back (a library call that loops) would otherwise block
+    // the batch until the driver's time-out. The wall clock is read here only; it never reaches
+    // a run. Slot w holds (run index + 1, start in ms since batch start) of worker w.
+    let nworkers = b.workers.max(1);
+    let slots: Vec<(AtomicU64, AtomicU64)> = (0..nworkers).map(|_| (AtomicU64::new(0), AtomicU64::new(0))).collect();
+    let t0 = std::time::Instant::now();
+    let limit_ms: u64 = std::env::var("DSIM_RUN_LIMIT_S").ok().and_then(|s| s.parse().ok()).unwrap_or(180) * 1000;
     std::thread::scope(|s| {
-        for _ in 0..b.workers.max(1) {
-            s.spawn(|| {
-                let mut local = L::default();
-                loop {
-                    if stop.load(Ordering::Relaxed) {
-                        break;
-                    }
-                    let k = next.fetch_add(1, Ordering::Relaxed);
-                    if k >= b.runs {
-                        break;
-                    }
-                    let rs = crate::rng::mix(b.seed, b.engine, k);
-                    if work(k, rs, &mut local) {
-                        stop.store(true, Ordering::Relaxed);
+        s.spawn(|| {
+            while !done.load(Ordering::Relaxed) {
+                std::thread::sleep(std::time::Duration::from_millis(250));
+                let now = t0.elapsed().as_millis() as u64;
+                for (w, (k1, start)) in slots.iter().enumerate() {
+                    let k1 = k1.load(Ordering::Relaxed);
+                    let st = start.load(Ordering::Relaxed);
+                    if k1 != 0 && now.saturating_sub(st) > limit_ms {
+                        let k = k1 - 1;
+                        eprintln!(
+                            "INCONCLUSIVE: run {k} (run seed {}) of engine {} on worker {w} has not returned after {} s; a library call seems not to terminate",
+                            crate::rng::mix(b.seed, b.engine, k), b.engine, limit_ms / 1000
+                        );
+                        println!("HARNESS-ERROR: INCONCLUSIVE: a run did not return within {} s (engine {}, run {k})", limit_ms / 1000, b.engine);
+                        std::process::exit(2);
                     }
                 }
-                locals.lock().unwrap().push(local);
-            });
+            }
+        });
+        let hs: Vec<_> = (0..nworkers)
+            .map(|w| {
+                let (slots, next, stop, locals, work) = (&slots, &next, &stop, &locals, &work);
+                s.spawn(move || {
+                    let mut local = L::default();
+                    loop {
+                        if stop.load(Ordering::Relaxed) {
+                            break;
+                        }
+                        let k = next.fetch_add(1, Ordering::Relaxed);
+                        if k >= b.runs {
+                            break;
+                        }
+                        let rs = crate::rng::mix(b.seed, b.engine, k);
+                        slots[w].1.store(t0.elapsed().as_millis() as u64, Ordering::Relaxed);
+                        slots[w].0.store(k + 1, Ordering::Relaxed);
+                        let r = work(k, rs, &mut local);
+                        slots[w].0.store(0, Ordering::Relaxed);
+                        if r {
+                            stop.store(true, Ordering::Relaxed);
+                        }
+                    }
+                    locals.lock().unwrap().push(local);
+                })
+            })
+            .collect();
+        for h in hs {
+            let _ = h.join();
         }
+        done.store(true, Ordering::Relaxed);
     });
     locals.into_inner().unwrap()
 }
